@@ -5,6 +5,7 @@ import BnpVerif.Props.C04Eager
 import BnpVerif.Props.C04Sam
 import BnpVerif.Props.C04Bam
 import BnpVerif.Props.C04Cr
+import BnpVerif.Props.C04Laws
 /-! C04 property theorems: `C04Core` (refinement of the extractor to a list of records, programs,
 fields, modified writes, BAM, checker soundness, refutation of the shipped record-end rule) and
 `C04Build` (the construction from a raw chunk, for all well-formed delimited files, LF/CRLF/mixed) and
